@@ -7,6 +7,7 @@ From JV Require Import Sem Gen Spec SpecX.
 From JV.Hand Require Import Iter.
 From JV.Proofs Require Import IterProofs IterCore.
 Import List ListNotations.
+Require JV.Proofs.Glue_C10_iter.
 Open Scope Z_scope.
 
 Theorem C10_later : forall (valid : Date -> Prop) (f : Date -> option Date),
@@ -83,10 +84,7 @@ Theorem C10_iterators_all : forall c j n, ValidCal c -> in_i32 j ->
   and_later_take n (date_of c j) = Ret (map (fun i => day_or_none c (j + Z.of_nat i)) (seq 0 n)) /\
   earlier_take n (date_of c j) = Ret (map (fun i => day_or_none c (j - 1 - Z.of_nat i)) (seq 0 n)) /\
   and_earlier_take n (date_of c j) = Ret (map (fun i => day_or_none c (j - Z.of_nat i)) (seq 0 n)).
-Proof.
-  intros c j n V H.
-  exact (conj (later_closed c V j n H) (conj (and_later_closed c V j n H) (conj (earlier_closed c V j n H) (and_earlier_closed c V j n H)))).
-Qed.
+Proof. exact JV.Proofs.Glue_C10_iter.C10_iterators_all_lemma. Qed.
 Print Assumptions C10_iterators_all.
 
 (* across the 1582 gap: 4 October is followed by 15 October; and the end of the range *)
